@@ -5,6 +5,8 @@ import bitmaprules, cap, progloops
 DEFINING = ["hwloc_bitmap_sscanf", "hwloc_bitmap_list_sscanf", "hwloc_bitmap_taskset_sscanf", "hwloc_bitmap_only", "hwloc_bitmap_allbut",
             "hwloc_bitmap_from_ulong", "hwloc_bitmap_from_ith_ulong", "hwloc_bitmap_from_ulongs"]
 
+DEFINING_ALL = DEFINING + ["hwloc_bitmap_zero", "hwloc_bitmap_fill", "hwloc_bitmap_copy", "hwloc_bitmap_not", "hwloc_bitmap_or", "hwloc_bitmap_and", "hwloc_bitmap_andnot", "hwloc_bitmap_xor"]
+
 
 def run(chk, tier):
     P = Program(("lib",), only=["bitmap.c"])
@@ -18,6 +20,15 @@ def run(chk, tier):
     chk.rule("R-DEFINE", "functions that define their destination do so before accumulating into it")
     nd = bitmaprules.define_before_accumulate(chk, P, DEFINING)
     chk.floor("R-DEFINE", "accumulating sites in defining functions", nd, 4)
+    chk.rule("R-DEFFLAG", "a function that defines its destination from its other arguments stores the destination's `infinite` flag on every non-failing path, itself or through helpers "
+             "that store it on all of their non-failing paths (must-fact dataflow with interprocedural must-write summaries): otherwise the result depends on what the destination held before")
+    ndf, _ = bitmaprules.flag_defined(chk, P, DEFINING_ALL)
+    chk.floor("R-DEFFLAG", "defining functions", ndf, 12)
+    chk.rule("R-GROWFIRST", "the word count (and the recorded capacity) of a set is raised only after the allocation that makes room for it has succeeded: every function that calls a fallible grow helper "
+             "(discovered) is explored with the count seeded and the helper forked into failed / succeeded; an exit reached with the allocation failed still sees the seeded count")
+    ngf, G = bitmaprules.grow_first(chk, P)
+    chk.floor("R-GROWFIRST", "functions with a failing grow path", ngf, 10)
+    chk.floor("R-GROWFIRST", "fallible grow helpers discovered", len(G), 2)
     chk.rule("R-CAPFIELD", "the capacity recorded for a heap array (X->*allocated* = F) has the same extent signature as the allocation of that array in the same function (X->A = alloc(E * sizeof ..))")
     import capfield
     ncf = capfield.run(chk, P, units=('bitmap.c',))
@@ -39,7 +50,9 @@ def run(chk, tier):
     chk.floor("R-WORDCOVER", "word-loop ranges", nwc, 20)
     if wskipped:
         chk.notes.append("R-WORDCOVER: not judged (a word loop is not a counted for): %s" % ", ".join(wskipped))
-    chk.decided += ['the word loops of the operations that read every word tile the word indexes without a gap (head/tail loops, first/middle/last word)',
+    chk.decided += ["a defining operation (zero/fill/only/allbut/from_*/copy/not/or/and/andnot/xor/parsers) always stores the destination's infinite flag (no stale flag from the destination's history)",
+                    "a failed allocation leaves a set with its previous word count: the count is never raised before the words exist (ulongs_count <= ulongs_allocated survives ENOMEM)",
+                    'the word loops of the operations that read every word tile the word indexes without a gap (head/tail loops, first/middle/last word)',
                     "word indexes into ulongs[] stay below the word count in every bitmap function but the five listed as out of scope",
                     'ulongs_allocated always records the size of the ulongs allocation',
                     "results do not depend on whether the destination aliases an operand (effect order on all paths)",
